@@ -2430,3 +2430,32 @@ def f_rate_limiters_slow(case):
     for e in evs:
         sim.schedule(_fresh(e))
     return Scenario(sim, workload=len(evs), variant=f"W{W}")
+
+
+class _RerunSim(Simulation):
+    """A Simulation whose run() is: run to completion, ``control.reset()``, run again (the hooks installed on the
+    control surface stay in place, so one delivery log / one spin guard covers both runs)."""
+
+    def run(self):
+        first = super().run()
+        self.first_summary = first
+        self.control.reset()
+        return super().run()
+
+
+@family("reset_rerun", "strkeys")
+def f_reset_rerun(case):
+    """Pre-scheduled events (several hundred distinguishable same-time events to a collector, a dozen jobs through a
+    Server, a few later ones), run, ``control.reset()``, run again: reset replays the pre-run events, so the second
+    run must deliver them in creation order whatever their creation indices are in this process."""
+    from happysimulator.components.server.server import Server
+    k = K(case)
+    sink, col = Sink("sink"), Collector("collector")
+    srv = Server("srv", concurrency=1 + k[0] % 2, service_time=ConstantLatency(ticks(1 + k[1] % 3)), downstream=sink)
+    sim = _RerunSim(entities=[srv, sink, col], end_time=T(400))
+    n = 400 + 40 * (k[2] % 8)
+    for i in range(n):                                     # same instant, distinguishable by type
+        sim.schedule(Event(time=T(2 + (i % 3 == 0)), event_type=f"note{i}", target=col, context={"metadata": {"i": i}}))
+    for i in range(12 + k[3] % 19):                        # 12-30 jobs, most of them at one instant
+        sim.schedule(Event(time=T(4 if i % 4 else 4 + i), event_type=f"job{i}", target=srv, context={"metadata": {"i": i}}))
+    return Scenario(sim, workload=2 * n + 60)
